@@ -22,6 +22,10 @@ Whole runs (from the master invariant and the value invariant `RefInv` of `Proof
   `run_tasks` returns exactly the requested tasks, de-duplicated in request order, each with
   `refEval` — the value of the plain sequential dependency-first evaluation. Backend, worker count,
   per-type limits, the schedule and the cache pre-state do not occur in the right-hand side;
+* `reference_is_failure_aware_reference` + `returns_reference_values_from_C10`: the same theorem obtained
+  as a corollary of C10's failure-aware `reference_when_nothing_fails` (under `NoFail`, `BehaveTotal`
+  and a sound pre-state `refEvalF = refEval`), which shows that the generalisation to failing tasks
+  and arbitrary cache pre-states is faithful;
 * `every_yield_is_reference_value`: on the way, every task that is yielded at all is yielded with
   `ok (refEval t)` (also non-requested intermediate tasks, also loaded-from-cache ones).
 -/
@@ -213,5 +217,41 @@ example (be : Backend) :
       .returned ((dedup (reqTids invExP)).filterMap (fun t => (refEval invExP id t).map (fun v => (t, v)))) :=
   (returns_reference_values _ invExP [(1, 1000)] 4 _ id invExP_refHyp invExP_warm_sound invExP_fuel
     (invEx_limits be 2 (by decide)) (fair_replicate 5 chooseFirst rfl) (by cases be <;> decide)).1
+
+/-! ## C01 as a corollary of the failure-aware theorem of C10 -/
+
+/-- when nothing fails, `run()` is total and the cache pre-state is sound, the failure-aware
+    reference evaluation of C10 is the plain one, for every task that has an object -/
+theorem reference_is_failure_aware_reference (cfg : Config) (p : Problem) (store : Store) (obj : Tid → Iid)
+    (H : RefHyp p obj) (hS : StoreSound p obj store) (i : Iid) :
+    refEvalF cfg p store obj (p.tidOf i) = refEval p obj (p.tidOf i) ∧ (refEval p obj (p.tidOf i)).isSome :=
+  ⟨refEvalF_eq_refEval cfg p store obj H hS _ i (Nat.lt_succ_self _),
+   refEval_isSome p obj H _ i (Nat.lt_succ_self _)⟩
+
+theorem returns_reference_values_from_C10 (cfg : Config) (p : Problem) (store : Store) (fuel : Nat) (sched : List Choice)
+    (obj : Tid → Iid) (H : RefHyp p obj) (hS : StoreSound p obj store) (hF : FuelOK p fuel)
+    (hL : LimitsPos cfg p) (hfair : Fair sched)
+    (hlen : (plan cfg p store fuel).pending.length + 1 ≤ sched.length) :
+    (run cfg p store fuel sched).status =
+      .returned ((dedup (reqTids p)).filterMap (fun t => (refEval p obj t).map (fun v => (t, v)))) ∧
+    ∀ t ∈ reqTids p, (refEval p obj t).isSome := by
+  have hnf : ∀ t ∈ (plan cfg p store fuel).pending, (refEvalF cfg p store obj t).isSome := by
+    intro t ht
+    obtain ⟨_, hti⟩ := planned_repr cfg p store fuel t ht
+    have := reference_is_failure_aware_reference cfg p store obj H hS (repr0 (plan cfg p store fuel) t)
+    rw [hti] at this
+    rw [this.1]; exact this.2
+  have h1 := Lt.Props.C10.reference_when_nothing_fails cfg p store fuel sched obj
+    ⟨H.acyc, H.inst, H.objOK⟩ hnf hF hL hfair hlen
+  constructor
+  · rw [h1]
+    congr 1
+    apply filterMap_congr'
+    intro t ht
+    obtain ⟨i, _, rfl⟩ := List.mem_map.mp ((mem_dedup _ _).mp ht)
+    rw [(reference_is_failure_aware_reference cfg p store obj H hS i).1]
+  · intro t ht
+    obtain ⟨i, _, rfl⟩ := List.mem_map.mp ht
+    exact (reference_is_failure_aware_reference cfg p store obj H hS i).2
 
 end Lt.Props.C01
